@@ -139,6 +139,11 @@ def check_config(ctx, F, tag):
     ctx.ob("C12.R2.close-delegates", RW + "::close" + tag, loc(c0.raw["span"]), len(cw) == 1 and core(c0.term_of_operand(cw[0]["args"][0]))[:2] == ("param", 0) and cw[0]["dest"]["l"] == 0,
            "call-sequence", "close = close_with_header(self, &mut Vec::new())", nontrivial=False)
     for w, close in ((RW, RW + "::close"), (IW, IW + "::close")):
+        if not F.has_body("<%s as std::ops::Drop>::drop" % w):
+            # the writer has no Drop impl of its own: the fields are dropped one by one, and for the integer writer that is the raw
+            # writer's Drop, which knows nothing of the outer header -- "dropping an open writer leaves the same complete file"
+            ctx.ob("C12.R2.drop-closes", "<%s as std::ops::Drop>::drop%s" % (w, tag), "src/", False, "must-pass-through", "%s has no Drop impl: an open writer that goes out of scope is not closed by its own close()" % w)
+            continue
         d = F.body("<%s as std::ops::Drop>::drop" % w)
         cb = [bi for bi, t in d.calls() if callee_name(t) == close and core(d.term_of_operand(t["args"][0]))[:2] == ("param", 0)]
         ctx.ob("C12.R2.drop-closes", d.name + tag, loc(d.raw["span"]), bool(cb) and must_pass_through(d, 0, cb), "must-pass-through", "Drop calls close(self) on every path: %s" % bool(cb))
@@ -151,7 +156,8 @@ def check_config(ctx, F, tag):
                     users.setdefault(b.name, set()).add(callee_name(t).split("::")[-1])
     users = {k: v for k, v in users.items() if not k.endswith("as std::fmt::Debug>::fmt")}
     bad = {k: sorted(v) for k, v in users.items() if not v <= {"as_mut", "is_some", "is_none"}}
-    ctx.ob("C12.R2.file-only-through-as-mut", RW + tag, "src/raw_vector.rs", users and not bad, "who-may-access",
+    import inline
+    ctx.ob("C12.R2.file-only-through-as-mut", RW + tag, "src/raw_vector.rs", (bool(users) and not bad) if not inline.only_new(list(bad)) else None, "who-may-access",
            "accesses to .file: %s; other than as_mut()/is_some(): %s" % ({k: sorted(v) for k, v in users.items()}, bad))
 
     # ---------------- R2c the file is opened create + write + truncate: whatever was at the path before is gone ("the file left
@@ -242,6 +248,16 @@ def check_config(ctx, F, tag):
         aggs = [st for bi, si, st in b.stmts() if st["s"] == "assign" and st["rv"]["r"] == "agg" and st["rv"].get("def") == RW]
         ok = len(aggs) == 1
         detail = "no aggregate"
+        if not aggs:
+            # one constructor delegating to the other with a constant buffer length: a positive multiple of 64
+            deleg = [t for _, t in b.calls() if callee_name(t) in (RW + "::new", RW + "::with_buf_len") and callee_name(t) != ctor]
+            if len(deleg) == 1:
+                from pat import fold_consts
+                blc = core(fold_consts(b.term_of_operand(deleg[0]["args"][-1])))
+                ok = blc[0] == "const" and isinstance(blc[1], int) and blc[1] > 0 and blc[1] % 64 == 0
+                detail = "delegates to %s with buf_len = %s" % (callee_name(deleg[0]).split("::")[-1], tstr(blc))
+                ctx.ob("C12.R3.buf-len-multiple-of-64", ctor + tag, loc(b.raw["span"]), ok, "term-shape+constant", detail)
+                continue
         if ok:
             ops = dict(zip(aggs[0]["rv"]["fields"], aggs[0]["rv"]["ops"]))
             bl = core(b.term_of_operand(ops["buf_len"]))
